@@ -1,48 +1,620 @@
+// Package c42: pre-execution never changes persisted state.
+//
+// Builds solo-consensus chains on disk (funded ontology and EVM accounts, two NeoVM contracts --
+// one with storage, one destroyed -- and two EVM contracts), then pre-executes generated invoke /
+// deploy / EIP-155 transactions (native ONT/ONG transfers, approve, transferFrom, global-parameter
+// updates, contract storage writers, contract create and destroy, EVM value transfers, storage
+// writers, self-destructs, creations, and failing ones of every kind) through every read-only
+// entry point: PreExecuteContract, PreExecuteContractWithParam, PreExecuteContractBatch (atomic or
+// not), PreExecuteEIP155, PreExecuteEip155Tx, TraceEip155Tx, and the LedgerStore interface.
+//
+// Oracle (on the implementation): a component-wise digest (digest.go) taken before and after each
+// pre-execution must be identical; after all of them the ledger is closed, reopened (digest equal),
+// a block is added, and the result must equal a twin copy of the data directory that never saw a
+// pre-execution.
+//
+// Correspondence (Corr/C42.v): CacheDB histories through GetCacheDB() over the real state store,
+// deploy gas, MinGas rounding, batch results, and the "unchanged" verdict of every entry point.
 package c42
 
 import (
+	"encoding/json"
 	"fmt"
+	"math/big"
 	"math/rand"
 	"path/filepath"
+	"sort"
+	"strings"
+
+	ethcomm "github.com/ethereum/go-ethereum/common"
+	ethtypes "github.com/ethereum/go-ethereum/core/types"
+	"github.com/ontio/ontology/common"
+	"github.com/ontio/ontology/common/config"
+	"github.com/ontio/ontology/core/payload"
+	"github.com/ontio/ontology/core/store/ledgerstore"
+	"github.com/ontio/ontology/core/types"
+	sstate "github.com/ontio/ontology/smartcontract/states"
+	evm2 "github.com/ontio/ontology/vm/evm"
 
 	"verif/harness/hx"
+	"verif/harness/ledgerkit"
 )
 
-func init() { registerGen(); hx.Register("C42", Run) }
+func init() {
+	registerGen()
+	hx.Register("C42", Run)
+}
+
+type replayIn struct {
+	Extra int  `json:"extra"` // extra blocks on the chain
+	Step  step `json:"step"`
+}
+
+type run struct {
+	x       *hx.Ctx
+	c       *chain
+	idx     int
+	extra   int
+	probe   *types.Block
+	stName  string   // Coq name of the state-store dump of this chain
+	cases   []string // buffered correspondence cases (headers must precede the first case)
+	descs   []interface{}
+	pending *[]pendingCase
+	seenErr map[string]bool
+}
+
+func firstN(s string, n int) string {
+	if len(s) > n {
+		return s[:n]
+	}
+	return s
+}
+
+type pendingCase struct {
+	term string
+	desc interface{}
+}
 
 func Run(x *hx.Ctx) {
 	x.CoqModule("Corr.C42")
-	r := rand.New(rand.NewSource(x.Rng.Int63()))
-	c, err := newChain(filepath.Join(x.OutDir, "chain0"), r, 1)
-	if err != nil {
-		panic(err)
+	var pend []pendingCase
+	var in replayIn
+	if x.ReplayInput(&in) {
+		r := newRun(x, 0, in.Extra, &pend)
+		if r != nil {
+			r.doStep(in.Step)
+			r.c.k.Close()
+		}
+		flush(x, pend)
+		return
 	}
-	defer c.k.Close()
-	fmt.Println("notes", c.notes, "height", c.k.Ledger.GetCurrentBlockHeight())
-	st := c.k.Store()
-	fmt.Println(st.VerifC39StoreDigests())
-	t, _ := c.signedInvoke(neoCall(c.neoLive, []byte("k0"), []byte("zz"), false), nil, 0, 0)
-	res, err := st.PreExecuteContract(t)
-	fmt.Printf("pre neo write: %+v %v\n", res, err)
-	t, _ = c.signedInvoke(neoCall(c.neoLive, []byte("k0"), []byte("zz"), true), nil, 0, 0)
-	res, err = st.PreExecuteContract(t)
-	fmt.Printf("pre neo destroy: %+v %v\n", res, err)
-	t, _ = c.signedInvoke(neoCall(c.neoDead, []byte("k0"), []byte("zz"), false), nil, 0, 0)
-	res, err = st.PreExecuteContract(t)
-	fmt.Printf("pre neo dead: %+v %v\n", res, err)
-	t, _ = c.signedInvoke(neoCreate(neoContract(5)), nil, 0, 0)
-	res, err = st.PreExecuteContract(t)
-	fmt.Printf("pre neo create: %+v %v\n", res, err)
-	var word [32]byte
-	word[31] = 9
-	_, et, err := c.ethTx(c.ethKeys[0], 3, &c.evmStore, 0, 100000, 0, word[:])
-	res, err = st.PreExecuteContract(et)
-	fmt.Printf("pre evm store: %+v %v\n", res, err)
-	_, et, err = c.ethTx(c.ethKeys[0], 3, &c.evmKill, 0, 100000, 0, nil)
-	res, err = st.PreExecuteContract(et)
-	fmt.Printf("pre evm kill: %+v %v\n", res, err)
-	_, et, err = c.ethTx(c.ethKeys[0], 3, &c.ethAddrs[1], 1000, 100000, 500, nil)
-	res, err = st.PreExecuteContract(et)
-	fmt.Printf("pre evm transfer: %+v %v\n", res, err)
-	fmt.Println(st.VerifC39StoreDigests())
+	idx := 0
+	for _, raw := range x.CorpusInputs() {
+		var ci replayIn
+		if json.Unmarshal(raw, &ci) == nil {
+			if r := newRun(x, idx, ci.Extra, &pend); r != nil {
+				r.doStep(ci.Step)
+				r.c.k.Close()
+			}
+			idx++
+		}
+	}
+	nChains := x.N(2, 6)
+	for i := 0; i < nChains; i++ {
+		r := newRun(x, idx, i%3, &pend)
+		idx++
+		if r == nil {
+			continue
+		}
+		r.everything()
+	}
+	flush(x, pend)
+}
+
+func flush(x *hx.Ctx, pend []pendingCase) {
+	for _, p := range pend {
+		x.Case(p.term, p.desc)
+	}
+}
+
+func (r *run) emit(term string, desc interface{}) {
+	*r.pending = append(*r.pending, pendingCase{term, desc})
+}
+
+func coqKvs(keys, vals [][]byte) string {
+	var s []string
+	for i := range keys {
+		s = append(s, "("+hx.CoqBytes(keys[i])+", "+hx.CoqBytes(vals[i])+")")
+	}
+	return "[" + strings.Join(s, ";\n ") + "]"
+}
+
+func coqGas() string {
+	keys, vals := gasTable()
+	var s []string
+	for _, k := range keys {
+		s = append(s, fmt.Sprintf("(%s, %d)", hx.CoqStr(k), vals[k]))
+	}
+	return hx.CoqList(s)
+}
+
+func newRun(x *hx.Ctx, idx, extra int, pend *[]pendingCase) *run {
+	rr := rand.New(rand.NewSource(x.Rng.Int63()))
+	dir := filepath.Join(x.OutDir, fmt.Sprintf("chain%d", idx))
+	c, err := newChain(dir, rr, extra)
+	if err != nil {
+		x.Note("chain construction failed: " + err.Error())
+		x.Fail("harness:chain-construction", "setup", map[string]int{"chain": idx}, err.Error(), "a chain")
+		return nil
+	}
+	for _, n := range c.notes {
+		x.Note(n)
+	}
+	r := &run{x: x, c: c, idx: idx, extra: extra, pending: pend, seenErr: map[string]bool{}}
+	// the probe block: a transfer, a contract storage write and an EVM storage write
+	t1, _ := c.k.TransferTx(ledgerkit.OntAddr, c.k.Acct, c.users[0].Address, 3, 0, 20000)
+	t2, _ := c.signedInvoke(neoCall(c.neoLive, []byte("k9"), []byte("probe"), false), c.k.Acct, 0, 100000)
+	var w [32]byte
+	w[31] = 0x99
+	_, t3, _ := c.ethTx(c.ethKeys[0], c.ethNonce[c.ethAddrs[0]], &c.evmStore, 0, 100000, 0, w[:])
+	probe, err := c.k.MakeBlock([]*types.Transaction{t1, t2, t3})
+	if err != nil {
+		x.Note("probe block: " + err.Error())
+	}
+	r.probe = probe
+	keys, vals := c.k.Store().VerifC42StateDump()
+	r.stName = fmt.Sprintf("c42_st_%d", idx)
+	x.CoqHeader(fmt.Sprintf("Definition %s : list kv :=\n %s.", r.stName, coqKvs(keys, vals)))
+	x.Count(fmt.Sprintf("chain:state-entries:%d", len(keys)/10*10))
+	return r
+}
+
+// check compares two snapshots and reports every changed component.
+func (r *run) check(before, after snap, in interface{}, what string) bool {
+	d := before.diff(after)
+	if len(d) == 0 {
+		return true
+	}
+	for _, comp := range d {
+		r.x.Fail("preexec-changed:"+comp, "a pre-execution leaves every persisted / chain component unchanged ("+what+")",
+			in, after[comp], before[comp])
+	}
+	return false
+}
+
+var entryCode = map[string]int{"contract": 0, "ledger": 0, "eip155": 1, "msg": 2, "trace": 2, "param": 4, "batch": 5}
+
+// preExec runs one step's entry point; returns (error text, result gas, number of results).
+func (r *run) preExec(s step, b *built) (errText string, res *sstate.PreExecResult, n int) {
+	st := r.c.k.Store()
+	msgOf := func() (ethtypes.Message, error) {
+		signer := ethtypes.NewEIP155Signer(big.NewInt(int64(config.DefConfig.P2PNode.EVMChainId)))
+		m, err := b.eth.AsMessage(signer)
+		if err != nil {
+			return m, err
+		}
+		return ethtypes.NewMessage(m.From(), m.To(), m.Nonce(), m.Value(), m.Gas(), m.GasPrice(), m.Data(), false), nil
+	}
+	var err error
+	switch s.Entry {
+	case "contract":
+		res, err = st.PreExecuteContract(b.tx)
+	case "ledger":
+		res, err = r.c.k.Ledger.PreExecuteContract(b.tx)
+	case "param":
+		res, err = st.PreExecuteContractWithParam(b.tx, ledgerstore.PrexecuteParam{JitMode: s.B%2 == 1, WasmFactor: s.B, MinGas: s.B%3 == 0})
+	case "batch":
+		txs := []*types.Transaction{b.tx}
+		for i := uint64(0); i < s.B%3; i++ {
+			o, e := r.c.mkTx([]string{"ont-transfer", "neo-put", "deploy-neo"}[(s.A+i)%3], s.A+i)
+			if e == nil {
+				txs = append(txs, o.tx)
+			}
+		}
+		if s.B%5 == 4 {
+			txs[0], txs[len(txs)-1] = txs[len(txs)-1], txs[0]
+		}
+		var rs []*sstate.PreExecResult
+		rs, _, err = st.PreExecuteContractBatch(txs, s.B%2 == 0)
+		n = len(rs)
+		if len(rs) > 0 {
+			res = rs[0]
+		}
+	case "eip155":
+		h := st.GetCurrentBlockHeight()
+		ctx := ledgerstore.Eip155Context{BlockHash: st.GetBlockHash(h), TxIndex: uint32(s.B % 4), Height: h, Timestamp: uint32(1600000000 + s.B)}
+		var er interface{}
+		er, _, err = st.PreExecuteEIP155(b.eth, ctx)
+		_ = er
+	case "msg":
+		m, e := msgOf()
+		if e != nil {
+			return "msg:" + e.Error(), nil, 0
+		}
+		_, err = st.PreExecuteEip155Tx(m)
+	case "trace":
+		m, e := msgOf()
+		if e != nil {
+			return "msg:" + e.Error(), nil, 0
+		}
+		_, err = r.c.k.Ledger.TraceEip155Tx(m, evm2.NewStructLogger(nil))
+	}
+	if err != nil {
+		errText = err.Error()
+	}
+	return
+}
+
+func (r *run) doStep(s step) {
+	x := r.x
+	b, err := r.c.mkTx(s.Kind, s.A)
+	if err != nil {
+		x.Count("build-error:" + s.Kind)
+		return
+	}
+	if !isEip(s.Kind) && (s.Entry == "eip155" || s.Entry == "msg" || s.Entry == "trace") {
+		s.Entry = "contract"
+	}
+	in := replayIn{Extra: r.extra, Step: s}
+	before := r.c.takeSnap(r.probe)
+	var errText string
+	var res *sstate.PreExecResult
+	panicked, msg := hx.Recover(func() { errText, res, _ = r.preExec(s, b) })
+	x.Eval()
+	after := r.c.takeSnap(r.probe)
+	x.Count("kind:" + s.Kind)
+	x.Count("entry:" + s.Entry)
+	if panicked {
+		x.Count("outcome:panic")
+		x.Fail("preexec-panic:"+s.Kind, "a pre-execution returns a result or an error", in, "panic: "+msg, "no panic")
+	} else if errText != "" {
+		x.Count("outcome:error")
+		x.Count("kind-error:" + s.Kind)
+		if x.Quick() && !r.seenErr[s.Kind] {
+			r.seenErr[s.Kind] = true
+			x.Count("error-text:" + s.Kind + ": " + firstN(errText[max0(len(errText)-110):], 110))
+		}
+	} else {
+		x.Count("outcome:ok")
+		x.Count("kind-ok:" + s.Kind)
+		if res != nil {
+			x.Count(fmt.Sprintf("state:%d", res.State))
+		}
+	}
+	same := r.check(before, after, in, s.Kind+" via "+s.Entry)
+	if b.writes && errText == "" && !panicked {
+		x.Nontrivial(s.Kind + "/" + s.Entry)
+		x.Count("writer-succeeded")
+	}
+	x.Sample(map[string]interface{}{"step": s, "error": errText, "unchanged": same})
+	r.emit(fmt.Sprintf("CEntry %d %s %s", entryCode[s.Entry], r.stName, hx.CoqBool(same)), in)
+	// deploy gas / MinGas rounding ties
+	if s.Entry == "contract" && !panicked {
+		r.gasTies(s, b, res, errText, same)
+	}
+}
+
+// gasTies emits the result-level correspondence cases for a step pre-executed with the default parameters.
+func (r *run) gasTies(s step, b *built, res *sstate.PreExecResult, errText string, same bool) {
+	st := r.c.k.Store()
+	h := st.GetCurrentBlockHeight()
+	switch b.tx.TxType {
+	case types.Deploy:
+		dc := b.tx.Payload.(*payload.DeployCode)
+		chk := 0
+		if s.Kind == "deploy-wasm" {
+			chk = 1
+		} else if s.Kind == "deploy-neo-wasm-magic" {
+			chk = 2
+		}
+		var gas uint64
+		if res != nil {
+			gas = res.Gas
+		}
+		wf := s.A % 3 * 1000
+		before := r.c.takeSnap(nil)
+		res2, err2 := st.PreExecuteContractWithParam(b.tx, ledgerstore.PrexecuteParam{WasmFactor: wf, MinGas: true})
+		r.x.Eval()
+		same2 := len(before.diff(r.c.takeSnap(nil))) == 0
+		if err2 == nil {
+			gas = res2.Gas
+		}
+		if (err2 != nil) != (errText != "") {
+			r.x.Note("deploy pre-execution error differs between default and explicit parameters: " + s.Kind)
+		}
+		r.emit(fmt.Sprintf("CDeploy %s %d %d %d %d %s %d %s", coqGas(), h, wf, chk, len(dc.GetRawCode()),
+			hx.CoqBool(err2 != nil), gas, hx.CoqBool(same && same2)), replayIn{Extra: r.extra, Step: s})
+		r.x.Count("case:deploy-gas")
+	case types.InvokeNeo:
+		if errText != "" || res == nil {
+			return
+		}
+		before := r.c.takeSnap(nil)
+		raw, err := st.PreExecuteContractWithParam(b.tx, ledgerstore.PrexecuteParam{MinGas: false})
+		r.x.Eval()
+		same2 := len(before.diff(r.c.takeSnap(nil))) == 0
+		if err != nil {
+			return
+		}
+		code := b.tx.Payload.(*payload.InvokeCode).Code
+		r.emit(fmt.Sprintf("CInvokeGas %s %d %d %d %d %s", coqGas(), h, len(code), raw.Gas, res.Gas, hx.CoqBool(same && same2)),
+			replayIn{Extra: r.extra, Step: s})
+		r.x.Count("case:invoke-mingas")
+	}
+}
+
+// batches: PreExecuteContractBatch over deploys (succeed) and bad-type transactions (fail).
+func (r *run) batches(n int) {
+	st := r.c.k.Store()
+	for i := 0; i < n; i++ {
+		var kinds []string
+		var txs []*types.Transaction
+		m := r.x.Intn(5)
+		for j := 0; j < m; j++ {
+			k := 0
+			if r.x.Intn(4) == 0 {
+				k = 1
+			}
+			kinds = append(kinds, fmt.Sprint(k))
+			var b *built
+			if k == 0 {
+				b, _ = r.c.mkTx("deploy-neo", uint64(r.x.Intn(1000)))
+			} else {
+				b, _ = r.c.mkTx("bad-type", 0)
+			}
+			txs = append(txs, b.tx)
+		}
+		atomic := r.x.Intn(2) == 0
+		before := r.c.takeSnap(r.probe)
+		rs, h, err := st.PreExecuteContractBatch(txs, atomic)
+		r.x.Eval()
+		after := r.c.takeSnap(r.probe)
+		same := r.check(before, after, map[string]interface{}{"batch": kinds, "atomic": atomic}, "batch")
+		r.emit(fmt.Sprintf("CBatch %s %d %s %s %s %d %d %s", coqGas(), st.GetCurrentBlockHeight(), hx.CoqList(kinds),
+			hx.CoqBool(atomic), hx.CoqBool(err != nil), len(rs), h, hx.CoqBool(same)), map[string]interface{}{"batch": kinds})
+		r.x.Count(fmt.Sprintf("batch:len%d", m))
+		if err != nil {
+			r.x.Count("batch:error")
+		}
+	}
+}
+
+// sessions: CacheDB histories through GetCacheDB() over the real state store.
+func (r *run) sessions(n int) {
+	st := r.c.k.Store()
+	keys, _ := st.VerifC42StateDump()
+	var storageKeys [][]byte // keys under ST_STORAGE (prefix stripped)
+	var contracts []common.Address
+	for _, k := range keys {
+		if len(k) > 1 && k[0] == 5 {
+			storageKeys = append(storageKeys, k[1:])
+		}
+		if len(k) == 21 && (k[0] == 4 || k[0] == 6) {
+			var a common.Address
+			copy(a[:], k[1:])
+			contracts = append(contracts, a)
+		}
+	}
+	contracts = append(contracts, r.c.neoLive, r.c.neoDead, r.c.users[0].Address)
+	rnd := r.x.Rng
+	pickKey := func() []byte {
+		switch rnd.Intn(4) {
+		case 0, 1:
+			return append([]byte(nil), storageKeys[rnd.Intn(len(storageKeys))]...)
+		case 2:
+			k := append([]byte(nil), storageKeys[rnd.Intn(len(storageKeys))]...)
+			if len(k) > 20 {
+				k = k[:20+rnd.Intn(len(k)-20)]
+			}
+			return append(k, byte(rnd.Intn(256)))
+		default:
+			k := make([]byte, 1+rnd.Intn(24))
+			rnd.Read(k)
+			return k
+		}
+	}
+	pickPrefix := func() []byte {
+		k := storageKeys[rnd.Intn(len(storageKeys))]
+		switch rnd.Intn(12) {
+		case 0:
+			return nil // everything under ST_STORAGE
+		case 1, 2:
+			return []byte{byte(rnd.Intn(256))}
+		case 3, 4, 5, 6:
+			if len(k) >= 20 {
+				return append([]byte(nil), k[:20]...) // one contract's storage
+			}
+			return append([]byte(nil), k...)
+		case 7, 8:
+			return append([]byte(nil), k...)
+		default:
+			n := len(k)
+			if n > 20 {
+				n = 20 + rnd.Intn(n-19)
+			}
+			return append([]byte(nil), k[:n]...)
+		}
+	}
+	for i := 0; i < n; i++ {
+		before := r.c.takeSnap(nil)
+		cache := st.GetCacheDB()
+		var ops []string
+		var kinds []string
+		nops := 4 + rnd.Intn(14)
+		for j := 0; j < nops; j++ {
+			switch rnd.Intn(12) {
+			case 0, 1, 2:
+				k := pickKey()
+				v := make([]byte, 1+rnd.Intn(12))
+				rnd.Read(v)
+				cache.Put(k, v)
+				ops = append(ops, fmt.Sprintf("(SPut 5 %s %s, RNone)", hx.CoqBytes(k), hx.CoqBytes(v)))
+				kinds = append(kinds, "put")
+			case 3, 4:
+				k := pickKey()
+				cache.Delete(k)
+				ops = append(ops, fmt.Sprintf("(SDel 5 %s, RNone)", hx.CoqBytes(k)))
+				kinds = append(kinds, "delete")
+			case 5, 6, 7:
+				k := pickKey()
+				v, err := cache.Get(k)
+				if err != nil {
+					r.x.Note("CacheDB.Get error: " + err.Error())
+				}
+				ops = append(ops, fmt.Sprintf("(SGet 5 %s, RVal %s)", hx.CoqBytes(k), hx.CoqBytes(v)))
+				kinds = append(kinds, "get")
+			case 8, 9:
+				p := pickPrefix()
+				it := cache.NewIterator(p)
+				var ks, vs [][]byte
+				for ok := it.First(); ok; ok = it.Next() {
+					ks = append(ks, append([]byte(nil), it.Key()...))
+					vs = append(vs, append([]byte(nil), it.Value()...))
+				}
+				it.Release()
+				ops = append(ops, fmt.Sprintf("(SIter 5 %s, RList %s)", hx.CoqBytes(p), coqKvs(ks, vs)))
+				kinds = append(kinds, fmt.Sprintf("iter%d", len(ks)))
+			case 10:
+				if rnd.Intn(2) == 0 {
+					cache.Commit()
+					ops = append(ops, "(SCommit, RNone)")
+					kinds = append(kinds, "commit")
+				} else {
+					cache.Reset()
+					ops = append(ops, "(SReset, RNone)")
+					kinds = append(kinds, "reset")
+				}
+			default:
+				a := contracts[rnd.Intn(len(contracts))]
+				if rnd.Intn(2) == 0 {
+					d, err := cache.IsContractDestroyed(a)
+					if err != nil {
+						r.x.Note("IsContractDestroyed error: " + err.Error())
+					}
+					ops = append(ops, fmt.Sprintf("(SGet 6 %s, RFlag %s)", hx.CoqBytes(a[:]), hx.CoqBool(d)))
+					kinds = append(kinds, "is-destroyed")
+				} else {
+					h := uint32(rnd.Intn(1000))
+					cache.DeleteContract(a, h)
+					hb := []byte{byte(h), byte(h >> 8), 0, 0}
+					ops = append(ops, fmt.Sprintf("(SDel 4 %s, RNone)", hx.CoqBytes(a[:])))
+					if config.GetTrackDestroyedContractHeight() <= h {
+						ops = append(ops, fmt.Sprintf("(SPut 6 %s %s, RNone)", hx.CoqBytes(a[:]), hx.CoqBytes(hb)))
+					}
+					kinds = append(kinds, "delete-contract")
+				}
+			}
+		}
+		r.x.Eval()
+		after := r.c.takeSnap(nil)
+		same := r.check(before, after, map[string]interface{}{"session": kinds}, "CacheDB session through GetCacheDB")
+		r.emit(fmt.Sprintf("CSession %s %d %s %s", r.stName, st.GetCurrentBlockHeight(), hx.CoqList(ops), hx.CoqBool(same)),
+			map[string]interface{}{"session": kinds})
+		for _, k := range kinds {
+			if strings.HasPrefix(k, "iter") {
+				k = "iter"
+			}
+			r.x.Count("session-op:" + k)
+		}
+		r.x.Nontrivial(fmt.Sprintf("session/%d/%d", r.idx, i))
+	}
+}
+
+// everything: the whole scenario on one chain.
+func (r *run) everything() {
+	x := r.x
+	c := r.c
+	// twin: a copy of the data directory taken before any pre-execution
+	twinDir := filepath.Join(x.OutDir, fmt.Sprintf("twin%d", r.idx))
+	c.k.Close()
+	if err := ledgerkit.CopyDir(c.k.Dir, twinDir); err != nil {
+		x.Note("twin copy failed: " + err.Error())
+	}
+	if err := c.k.Open(); err != nil {
+		x.Fail("harness:reopen", "setup", nil, err.Error(), "reopen")
+		return
+	}
+	gas0 := gasDigest()
+	// every kind through every entry point, then random ones
+	var steps []step
+	for _, k := range allKinds() {
+		ents := anyEntries
+		if isEip(k) {
+			ents = eipEntries
+		}
+		for _, e := range ents {
+			steps = append(steps, step{Kind: k, Entry: e, A: uint64(x.Intn(1 << 20)), B: uint64(x.Intn(1 << 16))})
+		}
+	}
+	kinds := allKinds()
+	for i := 0; i < x.N(40, 400); i++ {
+		k := kinds[x.Intn(len(kinds))]
+		ents := anyEntries
+		if isEip(k) {
+			ents = eipEntries
+		}
+		steps = append(steps, step{Kind: k, Entry: ents[x.Intn(len(ents))], A: uint64(x.Intn(1 << 20)), B: uint64(x.Intn(1 << 16))})
+	}
+	x.Rng.Shuffle(len(steps), func(i, j int) { steps[i], steps[j] = steps[j], steps[i] })
+	for _, s := range steps {
+		r.doStep(s)
+	}
+	r.batches(x.N(12, 60))
+	r.sessions(x.N(16, 150))
+
+	// restart: the reopened ledger is the ledger from before the pre-executions
+	first := c.takeSnap(r.probe)
+	c.k.Close()
+	if err := c.k.Open(); err != nil {
+		x.Fail("preexec-changed:reopen-fails", "the ledger reopens after pre-executions", map[string]int{"chain": r.idx}, err.Error(), "reopen")
+		return
+	}
+	reopened := c.takeSnap(r.probe)
+	delete(first, "file:wal-sizes") // reopening rotates the write-ahead logs
+	delete(reopened, "file:wal-sizes")
+	r.check(first, reopened, map[string]interface{}{"chain": r.idx, "phase": "restart after all pre-executions"}, "restart")
+	if g := gasDigest(); g != gas0 {
+		x.Fail("preexec-changed:global:gas-table", "the gas table after all pre-executions is the one before", map[string]int{"chain": r.idx}, g, gas0)
+	}
+	// add the probe block here and on the twin: same ledger
+	errMain := c.k.AddMadeBlock(r.probe)
+	mainSnap := c.takeSnap(nil)
+	c.k.Close()
+	twin, err := c.k.OpenAt(twinDir)
+	if err != nil {
+		x.Note("twin open failed: " + err.Error())
+		return
+	}
+	errTwin := twin.AddMadeBlock(r.probe)
+	tc := *c
+	tc.k = twin
+	twinSnap := tc.takeSnap(nil)
+	twin.Close()
+	if (errMain == nil) != (errTwin == nil) {
+		x.Fail("preexec-changed:next-block-acceptance", "the next block is accepted exactly as on a ledger that never pre-executed",
+			map[string]int{"chain": r.idx}, fmt.Sprint(errMain), fmt.Sprint(errTwin))
+	}
+	if errTwin != nil {
+		x.Note("probe block rejected on the twin: " + errTwin.Error())
+	}
+	delete(mainSnap, "file:wal-sizes") // the main ledger was reopened once more than the twin: its logs rotated differently
+	delete(twinSnap, "file:wal-sizes")
+	var d []string
+	for _, k := range mainSnap.diff(twinSnap) {
+		d = append(d, k)
+	}
+	sort.Strings(d)
+	for _, comp := range d {
+		x.Fail("preexec-changed:twin:"+comp, "after the next block the ledger equals a twin that never saw a pre-execution",
+			map[string]int{"chain": r.idx}, mainSnap[comp], twinSnap[comp])
+	}
+	x.Count("chain:twin-compared")
+	_ = ethcomm.Address{}
+}
+
+func max0(n int) int {
+	if n < 0 {
+		return 0
+	}
+	return n
 }
